@@ -243,6 +243,17 @@ def run_shard(spec, ctx):
         ga = gen.gapped_intervals(r)
         ce, _ = gen.segmentation(r, start=int(ga[0, 0] * 64),
                                  total=max(2, int(round((ga[-1, 1] - ga[0, 0]) * 64))))
+        if r.random() < 0.15:
+            # whole-second reference intervals in an integer-typed array
+            ga = np.unique(np.round(ga).astype(np.int64), axis=0)
+            ga = ga[ga[:, 1] > ga[:, 0]]
+            keep = [0] if len(ga) else []
+            for j in range(1, len(ga)):
+                if ga[j, 0] >= ga[keep[-1], 1]:
+                    keep.append(j)
+            ga = ga[keep] if len(keep) else np.array([[0, 3], [4, 9]])
+            ce, _ = gen.segmentation(r, start=int(ga[0, 0] * 64),
+                                     total=max(2, int(round((ga[-1, 1] - ga[0, 0]) * 64))))
         try:
             # overseg(a, b) = 1 - dhd(a, b); underseg(a, b) = 1 - dhd(b, a)
             mods["chord"].overseg(ga, ce)
